@@ -40,15 +40,15 @@ def decode_instruction(instr):
             return SubsPcLrArmA1
         else:
             return EorImmediateA1
-    elif instr_24_21 == 0b0010 and rn != 0b1111:
-        # Subtract
+    elif instr_24_21 == 0b0010 and (rn != 0b1111 or instr_20):
+        # Subtract (with Rn == PC only the flag-preserving form is ADR)
         if instr_15_12 == 0b1111 and instr_20:
             return SubsPcLrArmA1
         elif rn == 0b1101:
             return SubSpMinusImmediateA1
         else:
             return SubImmediateArmA1
-    elif instr_24_21 == 0b0010 and rn == 0b1111:
+    elif instr_24_21 == 0b0010:
         # Form PC-relative address
         return AdrA2
     elif instr_24_21 == 0b0011:
@@ -57,15 +57,15 @@ def decode_instruction(instr):
             return SubsPcLrArmA1
         else:
             return RsbImmediateA1
-    elif instr_24_21 == 0b0100 and rn != 0b1111:
-        # Add
+    elif instr_24_21 == 0b0100 and (rn != 0b1111 or instr_20):
+        # Add (with Rn == PC only the flag-preserving form is ADR)
         if instr_15_12 == 0b1111 and instr_20:
             return SubsPcLrArmA1
         elif rn == 0b1101:
             return AddSpPlusImmediateA1
         else:
             return AddImmediateArmA1
-    elif instr_24_21 == 0b0100 and rn == 0b1111:
+    elif instr_24_21 == 0b0100:
         # Form PC-relative address
         return AdrA1
     elif instr_24_21 == 0b0101:
